@@ -696,6 +696,11 @@ theorem inv_preserved (c : Composition) (op : CompOp) (c' : Composition) (hc : C
     cases h
     exact inv_clear c
 
+/-- `inv_preserved` under its conventional name: the partial form of `inv_preserved_full`, whose
+    extra hypothesis `ValidOp` excludes exactly the class of DESIGN F31 (invalid `push_selection`) -/
+theorem inv_preserved_partial (c : Composition) (op : CompOp) (c' : Composition) (hc : CompInv c)
+    (hv : ValidOp c op) (h : c.apply op = .ok c') : CompInv c' := inv_preserved c op c' hc hv h
+
 /-- the full-strength claim one would like: every public call preserves the invariant -/
 def inv_preserved_full : Prop :=
   ∀ (c : Composition) (op : CompOp) (c' : Composition), CompInv c → c.apply op = .ok c' → CompInv c'
